@@ -29,6 +29,7 @@ func isPK(t types.Type) bool {
 
 func c03(r *Report) {
 	defer c03Seed5(r)
+	defer c03Seed6(r)
 	p := r.P
 	r.Explanation = "Static decision of the structural conditions that keep private key material inside the key store: (1) SURFACE: no exported function, method, struct field or interface method outside the storage backends and key utilities returns or exposes a private-key type; (2) OWN: every conversion of a private-key typed value to an interface (the only way it can reach formatting, logging, JSON marshalling, JWK construction or header maps), every field selection on a private key and every private-key serialiser call lies in the owner table (backends, the signing/decrypting methods of the key store, the session-bound in-memory signer, the private-JWK detectors, the migration CLI, test helpers); (3) SignJWS reaches jws.Sign only if the jwk header is absent or cannot be converted to a crypto.Signer (all private key types implement it); (4) every backend assigned to the key store is wrapped by the key-name validator; each wrapper method with a key-name parameter reaches the backend only through validateKID; validateKID succeeds only via the pattern and the dot-segment refusal; the pattern admits no '/' or '\\'; backends never percent-decode key names; new keys get a UUID name; (5) key operations are audit-logged before they run."
 	r.NotDecided = []string{"that Sign(kid) verifies with the published key (crypto semantics)", "contents of log lines / SQL rows at run time beyond the conversion inventory", "duplicate kid rebinding by Crypto.New's upsert (observed, unconfirmed relevance)"}
